@@ -9,6 +9,11 @@ import (
 // reviewedBounds: accesses the engine cannot prove, with the hand proof (key -> reason). A new unproven access
 // is a violation until it is either proven or reviewed here.
 var reviewedBounds = map[string]string{
+	"BND:Lexer:scanLongString:order:chunk[a:b] a<=b#3": "len(longBracket) <= longBracketIdx: the closing bracket is searched in a chunk that starts with the opening bracket, " +
+		"and no `]` occurs inside the opening bracket (`[`, `=`...), so the first occurrence of the closing bracket starts at or after its end (a fact about the bytes, not about the shape of the code)",
+	"BND:Lexer:scanShortString:order:chunk[a:b] a<=b#3": "stringStart <= i-1 after the loop: either the loop was left at the closing quote (i was incremented past a byte at or after stringStart), " +
+		"or the scan ran to the end of the input right after an escape (stringStart = i >= len), and that case returned at the `stringStart >= len(l.chunk)` test just above; the engine's " +
+		"facts are conjunctive and cannot keep the two cases apart",
 	"BND:Lexer:scanNumber:slice:chunk[:b]#1": "i <= len: every increment of i follows a successful getIndexChar(i), except the one for a leading '.', and NextTokenStruct " +
 		"lets a '.' through to scanNumber only when a digit follows it (len >= 2); the engine joins that call site with the digit call site (len >= 1) " +
 		"and loses the correlation between the first byte and the length. The malformed-number branch that re-enters the lexer is dead for the same reason (TERM/LEX)",
